@@ -121,6 +121,12 @@ AddML(m, l) == IF m.mstate = "stopped" THEN [m EXCEPT !.mlst[l] = "nop"]
                ELSE [m EXCEPT !.mlst[l] = "active", !.mlknown[l] = {s \in Svc : InSeq(m.by["Failed"], s)}]
 MLRecvEn(m, l) == m.mlq[l] # <<>>
 MLRecv(m, l) == [m EXCEPT !.mldeliv[l] = Append(@, Head(m.mlq[l])), !.mlq[l] = Tail(@)]
+\* the function returned by AddListener: stop the goroutine, take the channel off the manager's list, wait for
+\* the goroutine.  What is still queued may or may not be delivered (select between stop and the channel).
+RemoveMLEn(m, l) == m.mlst[l] = "active"
+RemoveML(m, l) == [m EXCEPT !.mlst[l] = "removed"]
+MLDropEn(m, l) == m.mlst[l] = "removed" /\ m.mlq[l] # <<>>
+MLDrop(m, l) == [m EXCEPT !.mlq[l] = <<>>]
 
 \* AwaitHealthy / AwaitStopped
 MAwaitEn(m, w) == m.wpc[w] = "idle"
@@ -147,6 +153,8 @@ aRunRet(s, e)   == RunRetEn(mv, s) /\ mv' = RunRet(mv, s, e)
 aStopRet(s, e)  == StopRetEn(mv, s) /\ mv' = StopRet(mv, s, e)
 aAddML(l)       == AddMLEn(mv, l) /\ mv' = AddML(mv, l)
 aMLRecv(l)      == MLRecvEn(mv, l) /\ mv' = MLRecv(mv, l)
+aRemoveML(l)    == RemoveMLEn(mv, l) /\ mv' = RemoveML(mv, l)
+aMLDrop(l)      == MLDropEn(mv, l) /\ mv' = MLDrop(mv, l)
 aMAwait(w)      == MAwaitEn(mv, w) /\ mv' = MAwait(mv, w)
 aMWake(w)       == MWakeEn(mv, w) /\ mv' = MWake(mv, w)
 aMRead(w)       == MReadEn(mv, w) /\ mv' = MRead(mv, w)
@@ -158,12 +166,12 @@ FnRet == \E s \in Svc : \/ \E e \in {"none", "estart"} : aStartRet(s, e)
 MInit == mv = MInitRec
 MNext == \/ aMStartCall \/ aMStartNext \/ aMStopCall \/ aMStopNext \/ aPCancel \/ FnRet
          \/ \E s \in Svc : aDeliver(s) \/ aSvcStop(s)
-         \/ \E l \in MLis : aAddML(l) \/ aMLRecv(l)
+         \/ \E l \in MLis : aAddML(l) \/ aMLRecv(l) \/ aRemoveML(l) \/ aMLDrop(l)
          \/ \E w \in MWaiters : aMAwait(w) \/ aMWake(w) \/ aMRead(w)
 
 MFairness == /\ WF_mvars(aMStartNext) /\ WF_mvars(aMStopNext) /\ WF_mvars(FnRet)
              /\ \A s \in Svc : WF_mvars(aDeliver(s))
-             /\ \A l \in MLis : WF_mvars(aMLRecv(l))
+             /\ \A l \in MLis : WF_mvars(aMLRecv(l) \/ aMLDrop(l))
              /\ \A w \in MWaiters : WF_mvars(aMWake(w) \/ aMRead(w))
 MSpec == MInit /\ [][MNext]_mvars /\ MFairness
 
@@ -204,17 +212,21 @@ HealthyLatchExact ==
 MNoDoubleClose == mv.healthyCh <= 1 /\ mv.stoppedCh <= 1 /\ ~mv.sendClosed
 
 \* each failed service is reported exactly once to every listener registered before the failure was processed
+\* (a listener added late is not told about earlier failures; a removed one gets nothing new and nothing twice)
 FailureReportedOnce ==
-  \A l \in MLis : mv.mlst[l] = "active" =>
+  \A l \in MLis :
      LET all == mv.mldeliv[l] \o mv.mlq[l]
-     IN \A s \in Svc : Count(all, <<"Failure", s>>) =
-                        (IF View(s) = "Failed" /\ s \notin mv.mlknown[l] THEN 1 ELSE 0)
+         due(s) == IF View(s) = "Failed" /\ s \notin mv.mlknown[l] THEN 1 ELSE 0
+     IN /\ mv.mlst[l] = "active" => \A s \in Svc : Count(all, <<"Failure", s>>) = due(s)
+        /\ mv.mlst[l] = "removed" => \A s \in Svc : Count(all, <<"Failure", s>>) <= due(s)
+        /\ mv.mlst[l] \in {"none", "nop"} => all = <<>>
 \* Healthy at most once, Stopped at most once and last, in the order things happened
 MListenerOrder ==
   \A l \in MLis :
      LET all == mv.mldeliv[l] \o mv.mlq[l]
      IN /\ Count(all, <<"Healthy", 0>>) <= 1 /\ Count(all, <<"Stopped", 0>>) <= 1
         /\ (Count(all, <<"Stopped", 0>>) = 1) => (all[Len(all)] = <<"Stopped", 0>> /\ mv.mlclosed[l])
+        /\ (Count(all, <<"Healthy", 0>>) = 1) => mv.wasHealthy
         /\ mv.mlst[l] = "nop" => mv.mstate = "stopped"
 MNotifierNeverBlocks == \A l \in MLis : Len(mv.mlq[l]) <= MLCap
 
